@@ -219,6 +219,55 @@ def run(rep, tier):
             rep.ok("C10.R4", fn, "%s::set_scheduler_mode clears enable_stealing and enable_stealing_numa before delegating" % cls)
         else:
             rep.bad("C10.R4", fn, fn.loc, "mode-mask", "%s::set_scheduler_mode must mask out both stealing bits (found %s): a static policy would start stealing" % (cls, sorted(masks)))
+    # the masking above only works if every change of the mode word goes through the *virtual*
+    # set_scheduler_mode: mode_ is modified in scheduler_base::set_scheduler_mode only, and add_/remove_
+    # reach it by an unqualified (virtually dispatched) call on every path
+    SB = facts(rep, lib("threading_base", "src/scheduler_base.cpp"), [r"^pika::threads::detail::scheduler_base::"])
+    MODIFY = ("store", "exchange", "compare_exchange_weak", "compare_exchange_strong", "fetch_or", "fetch_and", "fetch_xor", "operator=",
+              "operator|=", "operator&=")
+    writers = {}
+    for G_ in (SB, PL):
+        for f in G_.fns:
+            for b, i, ev in f.all_events():
+                hit = (ev.get("k") == "call" and callee_short(ev) in MODIFY and "mode_.data_" in P(ev.get("recv"))) or \
+                      (ev.get("k") == "write" and "mode_.data_" in P(ev["lhs"]))
+                if hit and "scheduler_base" in (f.qname + " " + str(ev.get("rec", "")) + " " + P(ev.get("recv") or ev.get("lhs"))) and \
+                        (P(ev.get("recv") or ev.get("lhs")).startswith("this->mode_") or "scheduler_base" in f.qname):
+                    writers.setdefault(f.qname, (f, ev))
+    allowed_w = {"pika::threads::detail::scheduler_base::set_scheduler_mode"}
+    if not any(q in allowed_w for q in writers):
+        raise AnalysisBroken("scheduler_base::set_scheduler_mode does not store mode_ (anchor moved)")
+    for q, (f, ev) in sorted(writers.items()):
+        if q in allowed_w or f.kind == "ctor":
+            rep.ok("C10.R4", f, "mode_ written in %s (the single choke point behind the virtual setter)" % q.rsplit("::", 1)[-1])
+        else:
+            rep.bad("C10.R4", f, loc_of(ev), "mode-bypass", "%s modifies the scheduler mode word directly: the static policies' set_scheduler_mode "
+                    "override (which masks enable_stealing / enable_stealing_numa) is bypassed, so a static pool can start stealing" % q)
+    for nm in ("add_scheduler_mode", "remove_scheduler_mode"):
+        fs = SB.find(r"^pika::threads::detail::scheduler_base::%s$" % nm)
+        if not fs:
+            raise AnalysisBroken("scheduler_base::%s not found" % nm)
+        f = fs[0]
+        vcall = lambda e: e.get("k") == "call" and callee_of(e).endswith("scheduler_base::set_scheduler_mode") and e.get("virtual") and \
+            not e.get("qualified") and P(e.get("recv")) == "this"
+        vblocks = set(b for b, i, e in f.all_events() if vcall(e))
+        seen, work, bypass = {f.entry}, [f.entry], f.entry in vblocks and False
+        while work:
+            b = work.pop()
+            if b in vblocks:
+                continue
+            if b == f.exit:
+                bypass = True
+                break
+            for _, t in f.succs(b):
+                if t not in seen:
+                    seen.add(t)
+                    work.append(t)
+        if vblocks and not bypass:
+            rep.ok("C10.R4", f, "%s applies the new mode through the virtually dispatched set_scheduler_mode on every path" % nm)
+        else:
+            rep.bad("C10.R4", f, f.loc, "mode-virtual", "%s does not reach the virtual set_scheduler_mode on every path (qualified call or "
+                    "direct update): a static policy's mask is bypassed" % nm)
     ctor = PL.find(r"static_priority_queue_scheduler::static_priority_queue_scheduler$", pattern=False)
     if ctor:
         t = " ".join(T(ev) for _, _, ev in ctor[0].all_events() if ev.get("k") == "call" and callee_short(ev) == "remove_scheduler_mode")
